@@ -249,7 +249,7 @@ pub fn universe(g: &mut G) -> Universe {
                             (_, 1) => VKind::Newtype(ty(g, n, idx, 0)),
                             (_, 2) => VKind::Tuple((0..2 + g.below(2)).map(|_| ty(g, n, idx, 1)).collect()),
                             // a struct variant without fields (`V {}`) is not a unit variant on the wire
-                            _ if g.chance(1, 5) => VKind::Struct(vec![]),
+                            _ if g.chance(1, 3) => VKind::Struct(vec![]),
                             _ => VKind::Struct(fields(g, n, idx, 3)),
                         };
                         Variant { name: name.to_string(), kind, rename: if g.chance(1, 6) { Some(format!("{}-x", name.to_lowercase())) } else { None } }
